@@ -167,6 +167,7 @@ def run(placed, settings, name, depth=2, want_str=False, limit=600, use_cache=Tr
             continue
         wc.compiled = comp[wc.key]["ok"]
         wc.errors = comp[wc.key]["errors"]
+        wc.extra_obs["assert_start"] = b.cases[wc.key].assert_line
         if not wc.compiled or mode == "check":
             continue
         for k in wc.extra_obs.get("probes", []):
